@@ -59,6 +59,49 @@ CHECKS['C04'] = dict(
     note='Trusted: SciPy HiGHS, rsmc/ref/droref.py (generic dualiser ~60 lines). Tolerance 1e-5 relative.',
     design='DESIGN.md 4/C04')
 
+CHECKS['C06'] = dict(
+    technique='exhaustive enumeration of deterministic model specs (atom x position x composition x shape x front end x vtype x interface) on the real rsome; closed-form re-evaluation of every user constraint and of the objective at the returned point',
+    text='Full product of 30+ atoms (abs, norms, p-norms soc/exc, square, sumsqr, quad, power, gmean, exp/log and perspectives, '
+         'entropy, softplus, KL, rotated/exp cones, maxof/minof) x constraint-or-objective position x k*f(Ax+b)+c\'x+d compositions '
+         'x scalar/element-wise/vector/summed shapes x ro/dro x objective directions x C/I/B types x ECOS/Gurobi/default. '
+         'The returned x.get() is substituted into closed-form NumPy atoms: every user constraint must hold and model.get() must '
+         'equal the user objective there; an unbounded report for a box-bounded model whose epigraph form solves is a dropped objective.',
+    note='Trusted: closed forms in rsmc/ref/c06c07_atoms.py, solver tolerances (1e-5 ECOS/LP, 1e-4 Gurobi). n<=3, 4 dyadic palettes, box [-2,2]. '
+         'A form that raises is "unsupported" (loud), not alarmed. logdet/rootdet/LMI not covered (no SDP solver).',
+    design='DESIGN.md 4/C06')
+CHECKS['C07'] = dict(
+    technique='three exhaustive sub-explorations on the real rsome: pinned-argument parameter grids vs closed forms; lattice "no better feasible point"; brute-force enumeration of integer points for MILPs',
+    text='(pin) every atom at a pinned argument over complete bounded parameter grids (all integer p-norm degrees 3..9, all coprime a/b<=9 '
+         'in both encodings, all power p/q, all gmean weights in {1..3}^k, PSD/NSD/rank-deficient quad matrices) against closed forms; '
+         '(lat) for every C06 spec no lattice point of [-2,2]^n (step 1/4, refined to 1/64 near x*) that is feasible for the USER model beats the '
+         'reported optimum; (milp) all integer points of small boxes vs the reported optimum for mixed vtype strings and user bounds on binaries/integers '
+         'through default, OR-Tools, Gurobi (ECOS for pure-integer).',
+    note='Trusted: closed forms, scipy linprog for the continuous part of the brute force. Lattice resolution 1/64 near the optimum; n<=3.',
+    design='DESIGN.md 4/C07')
+CHECKS['C11'] = dict(
+    technique='exhaustive enumeration of compiled programs x solver interfaces (solo and ordered pairs on one model object) on the real rsome; residual checker + independent HiGHS/closed-form reference',
+    text='LP/MILP/SOCP/exp-cone programs from a grammar (all sense mixes, 7 bound kinds as Bounds/rows/arrays, 9 bound kinds on binaries, 6 on integers, '
+         'vtype strings, feasible/infeasible/unbounded variants incl. empty rows) are solved through every installed interface that supports the cones; '
+         'checks: nothing fabricated on failure (x None, objval NaN, get() raises), same status class as the reference, optimum within tolerance, residuals of '
+         'the returned vector against rows/bounds/integrality/binary domain/SOC/exp cones, and - for ordered pairs of interfaces on ONE model - a deep snapshot of '
+         'the cached program is unchanged by a solve and the second answer equals a fresh solve.',
+    note='Interfaces: default, OR-Tools, ECOS, Gurobi (clp/cplex/mosek/copt not installed). ECOS_BB limited to <=3 integer variables; its hangs are timeouts (inconclusive).',
+    design='DESIGN.md 4/C11')
+CHECKS['C14'] = dict(
+    technique='exhaustive enumeration of continuous LPs x dual-capable interfaces on the real rsome; KKT certificate identities on the values of dual()',
+    text='All LPs of a grammar (n<=3, 1-2 row blocks of 1-2 rows with every sense mix, three writing styles, 13 Bounds patterns on whole variables and slices, '
+         'min and max, default/ECOS/Gurobi) are solved and constr.dual() of every user LinConstr/Bounds object is checked against stationarity, dual objective = '
+         'optimum, sign pattern and shape, computed from the spec only. The identities hold for any optimal dual, so degeneracy cannot alarm.',
+    note='Statement restricted (as the property says) to at most one upper and one lower bound constraint per entry. No dro, no convex rows.',
+    design='DESIGN.md 4/C14')
+CHECKS['C16'] = dict(
+    technique='exhaustive enumeration of compiled LP/MILP/SOCP formulas; round trip through an independent LP-format reader (gurobipy.read) and cell-by-cell reference table for show()',
+    text='Formulas over coefficient regions (+-1, +-0.5, 1e-7, -1.5e-7, 1e9, zero rows, equal/infinite bounds, all vtypes, SOC cones, exp cones for show()) with 6-8 objective '
+         'directions, primal and dual: to_lp() is read back by Gurobi\'s reader and solved, status class and optimum compared with the direct solve; show() compared cell by cell with a '
+         'table computed from the formula fields.',
+    note='One independent reader (Gurobi) is all this sandbox has; ill-scaled regions decided Gurobi vs Gurobi. Exp-cone programs have no file oracle.',
+    design='DESIGN.md 4/C16')
+
 NOT_YET = {}
 
 
